@@ -122,6 +122,12 @@ func (processor *packetProcessor) publishHandler(ctx context.Context, sender str
 	}
 }
 
+// inboundFlow names the in-flight entries of the publishes a client sends us: their packet
+// identifiers are chosen by the client and must not collide with the ones we choose for deliveries.
+func inboundFlow(session *sessions.Session) string {
+	return session.ID() + "/in"
+}
+
 func (processor *packetProcessor) Process(ctx context.Context, session *sessions.Session, c io.Writer, pkt packet.Packet) error {
 	ctx, cancel := context.WithTimeout(ctx, 800*time.Millisecond)
 	defer cancel()
@@ -149,7 +155,7 @@ func (processor *packetProcessor) Process(ctx context.Context, session *sessions
 				Header:    &packet.Header{},
 				MessageId: p.MessageId,
 			}
-			err := processor.inflights.Insert(session.ID(), pubrec, time.Now().Add(3*time.Second), func(expired bool, stored, received packet.Packet) {
+			err := processor.inflights.Insert(inboundFlow(session), pubrec, time.Now().Add(3*time.Second), func(expired bool, stored, received packet.Packet) {
 				if expired {
 					L(ctx).Warn("qos2 flow timed out waiting for PUBREL")
 					return
@@ -228,7 +234,7 @@ func (processor *packetProcessor) Process(ctx context.Context, session *sessions
 			L(ctx).Error("failed to ack pubrec", zap.Int32("message_id", p.MessageId), zap.Error(err))
 		}
 	case *packet.PubRel:
-		err := processor.inflights.Ack(session.ID(), p)
+		err := processor.inflights.Ack(inboundFlow(session), p)
 		if err != nil {
 			L(ctx).Error("failed to ack pubrel", zap.Int32("message_id", p.MessageId), zap.Error(err))
 		}
